@@ -42,15 +42,19 @@ theorem bl_core (i L : Nat) (g v : String) (vals : List String) (key : (i ≠ L 
     (decide (i = L) || decide (g ≠ v)) = !vals.contains v := by
   by_cases e1 : i = L <;> by_cases e2 : g = v <;> by_cases e3 : v ∈ vals <;> simp_all
 
-theorem condMatches_eq (c : Cond) (v : String) (h1 : v ≠ "") (h2 : v ≠ "no") :
-    condMatches c v = ruleHolds c v := by
+theorem has_eq_present (tags : Tags) (k : String) : has tags k = present tags k := by
+  induction tags with
+  | nil => rfl
+  | cons t ts ih => obtain ⟨a, b⟩ := t; simp [has, present, ih]
+
+theorem condMatches_eq (c : Cond) (v : String) (h2 : v ≠ "no") :
+    condMatches c v = ruleHolds c true v := by
   have hs := searchStrings_mem (effectiveValues c) (effective_values_sorted c) v
   have hm := mem_effectiveValues c v
   have key := hs.trans hm
-  have r1 : decide (v ≠ "") = true := by simpa using h1
   have r2 : decide (v ≠ "no") = true := by simpa using h2
   unfold condMatches ruleHolds
-  rw [r1, r2]
+  rw [r2]
   cases c.kind
   · rfl
   · exact wl_core _ _ _ _ _ key
@@ -58,18 +62,19 @@ theorem condMatches_eq (c : Cond) (v : String) (h1 : v ≠ "") (h2 : v ≠ "no")
   · rfl
 
 theorem ruleLoop_eq_any (tags : Tags) (cs : List Cond) :
-    ruleLoop tags cs = cs.any fun c => ruleHolds c (lookup tags c.key) := by
+    ruleLoop tags cs = cs.any fun c => ruleHolds c (present tags c.key) (lookup tags c.key) := by
   induction cs with
   | nil => rfl
   | cons c rest ih =>
-    simp only [ruleLoop, List.any_cons, find_eq_lookup]
-    by_cases h1 : lookup tags c.key = ""
-    · simp [h1, ruleHolds, ih]
+    simp only [ruleLoop, List.any_cons, find_eq_lookup, has_eq_present]
+    by_cases h1 : present tags c.key = true
     · by_cases h2 : lookup tags c.key = "no"
-      · simp [h2, ruleHolds, ih]
-      · simp only [h1, h2, decide_false, Bool.or_self, Bool.false_eq_true, if_false]
-        rw [condMatches_eq c _ h1 h2, ih]
-        cases ruleHolds c (lookup tags c.key) <;> simp
+      · simp [h1, h2, ruleHolds, ih]
+      · simp only [h1, h2, Bool.not_true, decide_false, Bool.or_self, Bool.false_eq_true, if_false]
+        rw [condMatches_eq c _ h2, ih]
+        cases ruleHolds c true (lookup tags c.key) <;> simp
+    · have h1' : present tags c.key = false := by simpa using h1
+      simp [h1', ruleHolds, ih]
 
 /-- **C18, main statement.** For all node-ref lists and all tag lists, `Way.Polygon` answers exactly
     the published rule: closed, more than three refs, never for `area=no`, always for another
@@ -94,17 +99,28 @@ theorem any_congr_mem {l : List Cond} {f g : Cond → Bool} (h : ∀ c ∈ l, f 
 
 /-- the answer depends on the tags only through the values of `area` and the listed keys -/
 theorem polygon_depends_on_listed_keys (nodes : List Int) (t1 t2 : Tags)
-    (h : ∀ k, k = "area" ∨ k ∈ published.map (·.key) → lookup t1 k = lookup t2 k) :
+    (h : ∀ k, k = "area" ∨ k ∈ published.map (·.key) → lookup t1 k = lookup t2 k ∧ present t1 k = present t2 k) :
     wayPolygon nodes t1 = wayPolygon nodes t2 := by
   rw [polygon_iff_published, polygon_iff_published]
   unfold isArea
-  have ha := h "area" (Or.inl rfl)
-  have hany : (published.any fun c => ruleHolds c (lookup t1 c.key)) =
-      (published.any fun c => ruleHolds c (lookup t2 c.key)) := by
+  have ha := (h "area" (Or.inl rfl)).1
+  have hany : (published.any fun c => ruleHolds c (present t1 c.key) (lookup t1 c.key)) =
+      (published.any fun c => ruleHolds c (present t2 c.key) (lookup t2 c.key)) := by
     apply any_congr_mem
     intro c hc
-    rw [h c.key (Or.inr (List.mem_map.mpr ⟨c, hc, rfl⟩))]
+    have := h c.key (Or.inr (List.mem_map.mpr ⟨c, hc, rfl⟩))
+    rw [this.1, this.2]
   simp only [ha, hany]
+
+theorem present_iff_mem (t : Tags) (k : String) : present t k = true ↔ k ∈ t.map (·.1) := by
+  induction t with
+  | nil => simp [present]
+  | cons x xs ih => obtain ⟨a, b⟩ := x; simp [present, ih]; constructor <;> (intro h; rcases h with h | h; exact Or.inl h.symm; exact Or.inr h)
+
+theorem present_perm {t1 t2 : Tags} (hp : t1.Perm t2) (k : String) : present t1 k = present t2 k := by
+  have := (hp.map (·.1)).mem_iff (a := k)
+  rw [← present_iff_mem, ← present_iff_mem] at this
+  cases h1 : present t1 k <;> cases h2 : present t2 k <;> simp_all
 
 /-- lookup in a list with distinct keys is determined by membership -/
 theorem lookup_of_mem {t : Tags} (hn : (t.map (·.1)).Nodup) {k v : String} (hm : (k, v) ∈ t) :
@@ -143,7 +159,7 @@ theorem lookup_perm {t1 t2 : Tags} (hp : t1.Perm t2) (hn : (t1.map (·.1)).Nodup
 /-- tag order does not matter (tag lists with distinct keys, as OSM requires) -/
 theorem polygon_perm_invariant (nodes : List Int) (t1 t2 : Tags) (hp : t1.Perm t2)
     (hn : (t1.map (·.1)).Nodup) : wayPolygon nodes t1 = wayPolygon nodes t2 :=
-  polygon_depends_on_listed_keys nodes t1 t2 (fun k _ => lookup_perm hp hn k)
+  polygon_depends_on_listed_keys nodes t1 t2 (fun k _ => ⟨lookup_perm hp hn k, present_perm hp k⟩)
 
 /-- unrelated tags do not matter -/
 theorem polygon_unrelated_tags (nodes : List Int) (t : Tags) (k v : String)
@@ -155,7 +171,7 @@ theorem polygon_unrelated_tags (nodes : List Int) (t : Tags) (k v : String)
     rcases hk' with e | e
     · subst e; exact hk
     · intro e2; subst e2; exact hk2 e
-  simp [lookup, this]
+  simp [lookup, present, this]
 
 /-- a relation is an area exactly when its type tag is multipolygon or boundary -/
 theorem relation_polygon_iff (tags : Tags) :
@@ -165,6 +181,9 @@ theorem relation_polygon_iff (tags : Tags) :
 /-! ## non-vacuity / examples -/
 example : wayPolygon [1, 2, 3, 1] [("building", "yes")] = true := by decide
 example : wayPolygon [1, 2, 1] [("building", "yes")] = false := by decide
+-- an empty value is a value: the key is present and its value is not `no`
+example : wayPolygon [1, 2, 3, 1] [("building", "")] = true := by decide
+example : wayPolygon [1, 2, 3, 1] [("highway", "")] = false := by rw [polygon_iff_published]; decide
 example : wayPolygon [1, 2, 3, 1] [("highway", "rest_area")] = true := by
   rw [polygon_iff_published]; decide
 example : wayPolygon [1, 2, 3, 1] [("natural", "cliff")] = false := by
